@@ -533,50 +533,92 @@ func (b *boundsAnalysis) prove(goal lin, facts factSet) bool {
 			cands = append(cands, l)
 		}
 	}
+	// relevance by breadth-first levels over shared terms, in a fixed order (the
+	// verdict must not depend on map iteration order): level 0 = facts sharing
+	// a term with the goal, level 1 = facts sharing a term with those, ...
 	relevant := map[string]bool{}
 	for t := range goal.co {
 		relevant[t] = true
 	}
-	for iter := 0; iter < 2; iter++ {
-		for _, f := range facts {
+	fkeys := make([]string, 0, len(facts))
+	for k := range facts {
+		fkeys = append(fkeys, k)
+	}
+	sort.Strings(fkeys)
+	level := map[string]int{}
+	for lv := 0; lv < 3; lv++ {
+		var newTerms []string
+		for _, k := range fkeys {
+			if _, done := level[k]; done {
+				continue
+			}
+			f := facts[k]
+			hit := false
 			for t := range f.co {
 				if relevant[t] {
-					addC(f)
-					for t2 := range f.co {
-						relevant[t2] = true
-					}
+					hit = true
 					break
 				}
 			}
+			if hit {
+				level[k] = lv
+				for t := range f.co {
+					newTerms = append(newTerms, t)
+				}
+			}
+		}
+		if len(newTerms) == 0 {
+			break
+		}
+		for _, t := range newTerms {
+			relevant[t] = true
 		}
 	}
-	var tb []lin
+	type lc struct {
+		l  lin
+		lv int
+		s  string
+	}
+	var lcs []lc
+	for _, k := range fkeys {
+		if lv, ok := level[k]; ok {
+			lcs = append(lcs, lc{facts[k], lv, k})
+		}
+	}
+	sort.Slice(lcs, func(i, j int) bool {
+		if lcs[i].lv != lcs[j].lv {
+			return lcs[i].lv < lcs[j].lv
+		}
+		if len(lcs[i].l.co) != len(lcs[j].l.co) {
+			return len(lcs[i].l.co) < len(lcs[j].l.co)
+		}
+		return lcs[i].s < lcs[j].s
+	})
+	if len(lcs) > 16 {
+		lcs = lcs[:16]
+	}
+	for _, c := range lcs {
+		addC(c.l)
+	}
+	rts := make([]string, 0, len(relevant))
 	for t := range relevant {
+		rts = append(rts, t)
+	}
+	sort.Strings(rts)
+	for _, t := range rts {
 		ti := b.terms[t]
 		if ti.hasLo {
 			l := newLin()
 			l.co[t] = 1
 			l.k = -ti.lo
-			tb = append(tb, l)
+			addC(l)
 		}
 		if ti.hasHi {
 			l := newLin()
 			l.co[t] = -1
 			l.k = ti.hi
-			tb = append(tb, l)
+			addC(l)
 		}
-	}
-	sort.Slice(cands, func(i, j int) bool {
-		if len(cands[i].co) != len(cands[j].co) {
-			return len(cands[i].co) < len(cands[j].co)
-		}
-		return cands[i].String() < cands[j].String()
-	})
-	if len(cands) > 12 {
-		cands = cands[:12]
-	}
-	for _, l := range tb {
-		addC(l)
 	}
 	// search goal = sum(lambda_i * cand_i) + c with c >= 0: eliminate the residual's
 	// terms one at a time, each with a candidate that cancels it exactly
@@ -1014,6 +1056,11 @@ func (b *boundsAnalysis) assign(lhs, rhs ast.Expr, tok token.Token, facts factSe
 	}
 	lk := p.Canon(lhs)
 	lt := p.TypeOf(lhs)
+	if lt == nil {
+		// e.g. the symbol of a type switch: no single type; nothing to track
+		b.killTerm(facts, lk)
+		return
+	}
 	if call, ok := ast.Unparen(rhs).(*ast.CallExpr); ok {
 		if f := p.Callee(call); f != nil && core.FuncFullName(f) == "bytes.NewBuffer" && len(call.Args) == 1 {
 			t := "len(buf:" + lk + ")"
